@@ -538,7 +538,7 @@ func faultsFamily(seed int64, n int, out *json.Encoder, perKind int) {
 				}
 				ev.Post = t.observe()
 				ev.PTerm = []term{}
-				if ev.Res == "err" && (c.Op == "ins" || c.Op == "del") {
+				if (ev.Res == "err" || (ev.Res == "ok" && ev.Hit > 0)) && (c.Op == "ins" || c.Op == "del") {
 					// is the recorded height still the height of the structure? persist a clone and decode it
 					guard(func() error {
 						cl, err := t.m.Clone(ctx)
